@@ -916,7 +916,23 @@ func runGoFuzz(pkg, target string, n int) (int, string, string) {
 	}
 	if err != nil {
 		if m := reFailFile.FindStringSubmatch(out); m != nil {
-			return execs, filepath.Join(ev.Root, "internal", "plfuzz", m[1]), out
+			// move the failing input out of testdata (where it would become a seed of every later
+			// run, also on other trees) into the replay directory of the property
+			src := filepath.Join(ev.Root, strings.TrimPrefix(pkg, "./"), m[1])
+			prop := "C15"
+			if strings.Contains(pkg, "clifuzz") {
+				prop = "C13"
+			}
+			dst := filepath.Join(ev.Root, "replays", prop, "fuzz-"+target+"-"+filepath.Base(m[1]))
+			os.MkdirAll(filepath.Dir(dst), 0o755)
+			if b, rerr := os.ReadFile(src); rerr == nil {
+				os.WriteFile(dst, b, 0o644)
+				os.Remove(src)
+				os.Remove(filepath.Dir(src))
+				os.Remove(filepath.Dir(filepath.Dir(src)))
+				os.Remove(filepath.Dir(filepath.Dir(filepath.Dir(src))))
+			}
+			return execs, dst, out
 		}
 		if strings.Contains(out, "FAIL") {
 			return execs, "unknown", out
